@@ -129,6 +129,17 @@ def same_vec(a, b, tol):
 
 
 RTOL = 1e-12
+MU0 = 4e-7 * np.pi
+
+
+def excitation_scale(src_desc, field):
+    """natural field scale of a magnet: |J| (B, J) or |J|/mu0 (H, M).  The field of a magnet is a sum of
+    O(|J|) face contributions; far from the body they cancel, so rounding differences between two
+    evaluation orders are a few ulps of |J|, not of the (much smaller) net field"""
+    pol = [max(abs(x) for x in d["args"]["pol"]) for d in leaves_of(src_desc) if "pol" in d["args"]]
+    if not pol:
+        return 0.0
+    return max(pol) / (MU0 if field in "HM" else 1.0)
 
 
 def rounding_sensitivity(case, field, l, m, k, p, one):
@@ -158,7 +169,7 @@ def element_mismatches(case, field, limit=1, only=None):
     out = []
     for l in range(L):
         blk = B[l][np.isfinite(B[l])]
-        scale = float(np.max(np.abs(blk))) if blk.size else 0.0
+        scale = max(float(np.max(np.abs(blk))) if blk.size else 0.0, excitation_scale(case["sources"][l], field))
         for m in range(M):
             for k in range(K):
                 for p in range(B.shape[3]):
@@ -490,8 +501,35 @@ def agg_scale(agg, vals):
     return {"sum": n * s, "var": s * s}.get(agg, s)
 
 
+def reference_sensitivity(case, field, agg, ref):
+    """per sensor and source: how much the hand-made reference itself moves when every sensor position
+    is moved by a few ulps (rounding sensitivity of the cores at these observers, e.g. strong
+    cancellation far from a Tetrahedron / TriangularMesh); below this bound a disagreement is rounding"""
+    dev = [np.zeros(r.shape[0]) for r in ref]
+    for sg in [(1, 1, 1), (-1, 1, -1), (1, -1, -1), (-1, -1, 1)]:
+        sens = []
+        for sd in case["sensors"]:
+            pos = np.array(sd["pos"], dtype=float)
+            mag = max(1.0, float(np.max(np.abs(pos))), float(np.max(np.abs(np.array(pix_flat(sd))))))
+            sens.append(dict(sd, pos=(pos + 4.5e-16 * mag * np.array(sg)).tolist()))
+        r2 = sensor_reference(dict(case, sensors=sens), field, agg)
+        for k, (a, b) in enumerate(zip(ref, r2)):
+            d = np.abs(a - b)
+            d[~np.isfinite(d)] = 0.0
+            dev[k] = np.maximum(dev[k], d.reshape(d.shape[0], -1).max(axis=1))
+    return dev
+
+
 def sensor_mismatch(case, field, agg=None):
     """None or (l, m, k, what) where getX(sources, sensors[, pixel_agg]) differs from the reference"""
+    mm = _sensor_mismatch(case, field, agg, None)
+    if mm is None or not isinstance(mm[3], str) or not mm[3].startswith("got "):
+        return mm
+    ref = sensor_reference(case, field, agg)
+    return _sensor_mismatch(case, field, agg, reference_sensitivity(case, field, agg, ref))
+
+
+def _sensor_mismatch(case, field, agg, slack):
     B = run_batch(case, field, squeeze=False, pixel_agg=agg)
     ref = sensor_reference(case, field, agg)
     raw = sensor_reference(case, field, None) if agg else ref
@@ -503,7 +541,9 @@ def sensor_mismatch(case, field, agg=None):
         if got.shape != ref[k].shape:
             return (0, 0, k, f"shape {got.shape} vs expected {ref[k].shape}")
         for l in range(L):
-            tol = 1e-11 * agg_scale(agg, raw[k][l]) + 1e-300
+            exc = excitation_scale(case["sources"][l], field)
+            exc = {"sum": raw[k].shape[-2] * exc, "var": exc * exc}.get(agg, exc)
+            tol = 1e-11 * max(agg_scale(agg, raw[k][l]), exc) + 1e-300 + (64 * slack[k][l] if slack is not None else 0.0)
             for m in range(M):
                 if not same_vec(got[l, m], ref[k][l, m], tol):
                     return (l, m, k, f"got {got[l, m].tolist()} expected {ref[k][l, m].tolist()}")
